@@ -24,6 +24,7 @@ REQUIRED_COUNTERS = ['chains_completed', 'centroid_node_pairs_checked',
                      'chains_with_a_node_wider_than_4x_reported_candidates',
                      'chains_with_a_parent_of_one_leaf_children',
                      'chains_with_a_leaf_without_reference_cells',
+                     'chains_with_exactly_256_iterations',
                      'chains_at_factor_one_with_several_iterations']
 RULE = ('case = generated labelled reference (separable clusters, 2-4 '
         'levels, 5-9 leaves, leaf names in non-alphabetical creation order) '
@@ -63,6 +64,12 @@ def gen_cases(tier, seed):
             'n_per_utility': int(rng.integers(2, 8)),
             'rng_seed': int(rng.integers(2 ** 31)),
         })
+        if i % 6 == 0:
+            # iteration counts at the edge of the narrowest vote counter: a
+            # centroid collects every single vote
+            cases[-1]['iterations'] = [256, 255, 257][(i // 6 + seed) % 3]
+            if i == 0:
+                cases[-1]['iterations'] = 256
         if i % 4 == 1:
             # a parent all of whose children own exactly one leaf (votes
             # are then not aggregated), next to one with a two-leaf child
@@ -240,6 +247,8 @@ def run_case(spec, work):
                                      if not spec.get('wide') else 90),
                             cells_per_leaf=(8, 14),
                             encoding=spec['ref_encoding'])
+    if spec['iterations'] == 256:
+        bump('chains_with_exactly_256_iterations')
     if spec['factor'] == 1.0 and spec['iterations'] > 1:
         bump('chains_at_factor_one_with_several_iterations')
     model = ref.model
